@@ -12,6 +12,7 @@ import collections
 import json
 import os
 import random
+import re
 import shutil
 import time
 
@@ -261,6 +262,39 @@ def check(ctx):
                 samples.append({"patterns": sc["patterns"], "flags": flags, "kinds": sc["kinds"], "prior": sc["prior"], "exit": rc, "files": sorted(after), "model": model})
             for r in ("m", "ref", "red"):
                 shutil.rmtree(os.path.join(scratch, r), ignore_errors=True)
+        # ---- a module whose path has a single element, and files selected by other build constraints than `goose`
+        fn = "func %s() uint64 {\n\treturn 1\n}\n"
+        one = {"": {"r.go": "package m\n\n" + fn % "Root"},
+               "sub": {"s.go": "package sub\n\n" + fn % "Sub",
+                       "linux.go": "//go:build linux\n\npackage sub\n\n" + fn % "OnLinux",
+                       "go118.go": "//go:build go1.18\n\npackage sub\n\n" + fn % "OnGo118",
+                       "either.go": "//go:build windows || go1.1\n\npackage sub\n\n" + fn % "Either",
+                       "win.go": "//go:build windows\n\npackage sub\n\n" + fn % "OnWindows",
+                       "both.go": "//go:build goose && linux\n\npackage sub\n\n" + fn % "GooseLinux",
+                       "notgoose.go": "//go:build !goose\n\npackage sub\n\n" + fn % "NotGoose"}}
+        root = os.path.join(scratch, "one")
+        gomod.write_module(root, one, module="m")
+        rc, out, err = gomod.run_goose(root, [], ["./..."], out=os.path.join(root, "Goose"))
+        t = gomod.tree(os.path.join(root, "Goose"))
+        stats["single_element_module"] += 1
+        if rc != 0 or sorted(t) != ["m.v", "m/sub.v"]:
+            if not found:
+                found = True
+                ctx.violation("counterexample", "goose command: file placement for a module whose path has one element",
+                              {"proto": "cli-cmd", "module": "m", "packages": one, "patterns": ["./..."]}, expected={"exit": 0, "files": ["m.v", "m/sub.v"]},
+                              observed={"exit": rc, "files": sorted(t), "stderr": err[-400:]})
+        else:
+            p2 = C.run(["go", "list", "-tags", "goose", "-f", "{{.GoFiles}}", "./sub"], cwd=root)
+            listed = sorted(p2.stdout.strip().strip("[]").split())
+            name_of = {"s.go": "Sub", "linux.go": "OnLinux", "go118.go": "OnGo118", "either.go": "Either", "win.go": "OnWindows", "both.go": "GooseLinux", "notgoose.go": "NotGoose"}
+            want = sorted(name_of[f] for f in listed)
+            txt = t["m/sub.v"][0].decode()
+            got = sorted(re.findall(r"^Definition (\w+):", txt, re.M))
+            stats["constraint_files_listed"] = len(listed)
+            if got != want and not found:
+                found = True
+                ctx.violation("counterexample", "sources selected differ from `go list -tags goose` (build constraints other than the goose tag)",
+                              {"proto": "cli-cmd", "module": "m", "packages": {"sub": one["sub"]}}, expected={"files": listed, "definitions": want}, observed={"definitions": got})
     finally:
         shutil.rmtree(scratch, ignore_errors=True)
     C.report_broken_obligations(ctx, build, found)
